@@ -851,6 +851,40 @@ func c09Crafted(rng *core.RNG) []c09Blob {
 		b, _ := imggen.PNGSpec{W: 5, H: 7, Depth: 8, ColorType: 2, Pre: pre, IDAT: []byte{1}}.Build()
 		add("load", "PNG", b, fmt.Sprintf("png-many-bad-iccp: %d iCCP chunks that do not inflate (%d input bytes)", cnt, len(b)))
 	}
+	// embedded profiles of exactly 2^k bytes (and one more, one less) whose size field says 1 ... 4
+	// bytes more or less than there are, in each container: the raw bytes a loader hands on have
+	// no spare capacity to lean on
+	for _, n := range []int{512, 1024, 2048, 4096, 8192, 1023, 4097} {
+		base, _ := imggen.ICCSpec{Header: imggen.MinimalHeader(false), Tags: []imggen.ICCTag{{Sig: "desc", Data: imggen.TextDescription("exact size")}, {Sig: "A2B0", Data: make([]byte, n)}}}.Build()
+		if len(base) < n {
+			continue
+		}
+		for _, d := range []int{1, 2, 3, 4, -1, -3} {
+			prof := append([]byte{}, base[:n]...)
+			binary.BigEndian.PutUint32(prof[0:], uint32(n+d))
+			// keep the tag inside the data that is there
+			binary.BigEndian.PutUint32(prof[128+4+12+8:], uint32(n-int(binary.BigEndian.Uint32(prof[128+4+12+4:]))))
+			jb, _ := imggen.JPEGSpec{Precision: 8, W: 5, H: 7, Comps: imggen.StdComps(1, 1, 1), Before: []imggen.JPEGSeg{imggen.ICCChunkSeg(1, 1, prof)}, Entropy: []byte{1}}.Build()
+			add("load", "JPEG", jb, fmt.Sprintf("exact-size-profile: a %d-byte profile declaring %d bytes, as one JPEG chunk", n, n+d))
+			wb, _ := imggen.WebPSpec{Kind: "VP8X", W: 5, H: 7, ICC: prof, Payload: []byte{1, 2, 3}}.Build()
+			add("load", "WebP", wb, fmt.Sprintf("exact-size-profile: a %d-byte profile declaring %d bytes, in a WebP", n, n+d))
+			if d > 0 && n <= 2048 {
+				pb, _ := imggen.PNGSpec{W: 5, H: 7, Depth: 8, ColorType: 2, ICC: &imggen.PNGICC{Name: "e", Profile: prof, Level: 6}, IDAT: []byte{1}}.Build()
+				add("load", "PNG", pb, fmt.Sprintf("exact-size-profile: a %d-byte profile declaring %d bytes, in a PNG", n, n+d))
+			}
+		}
+	}
+	// a VP8X chunk that declares far more than its ten bytes, with and without the ICC flag
+	for _, l := range []uint32{64 << 20, 0x7FFFFFF0, 11, 1 << 20} {
+		for _, flags := range []uint8{0x20, 0x00, 0xFF} {
+			wb, _ := imggen.WebPSpec{Kind: "VP8X", W: 5, H: 7, Flags: flags, FlagsRaw: true, ICC: []byte("twelve bytes"), Payload: []byte{1, 2, 3}}.Build()
+			b := append([]byte{}, wb...)
+			if i := bytes.Index(b, []byte("VP8X")); i > 0 {
+				binary.LittleEndian.PutUint32(b[i+4:], l)
+				add("load", "WebP", b, fmt.Sprintf("long-vp8x: a VP8X chunk declaring %d bytes (flags %#02x) in a %d-byte WebP", l, flags, len(b)))
+			}
+		}
+	}
 	// two declared numbers that vouch for each other (a container size and a chunk length inside it,
 	// both huge, the file a few dozen bytes): nothing of that size may be set aside before it has arrived
 	for _, pr := range [][2]uint32{{0x7FFFFFFF, 0x30000000}, {0xFFFFFFFE, 0xF0000000}, {0x40000000, 0x3FFFFF00}, {0x10000000, 0x0FFFFF00}} {
